@@ -1,11 +1,13 @@
 """C04 — no call sequence corrupts memory, breaks the allocator contract or a variable."""
 import os, re, random
-import apigen, vlib
+import apigen, vlib, gen_tmpskel
 from genlib import *
 LEVEL = "proof"
-LEAN_MODULES = ["MpirProofs.Props.C04"]
-THEOREMS = ["Mpir.Life.inv_init", "Mpir.Life.inv_step", "Mpir.Life.inv_run", "Mpir.Life.no_breach", "Mpir.Life.clearAll_empties_ledger", "Mpir.Life.realloc2_value", "Mpir.Life.set_value"]
-TRUSTED = ["run-time monitors on the C side: recording allocator (exact old size on realloc/free, red zones, leak ledger), well-formedness check of every pool object after every call, ASan+UBSan build",
+LEAN_MODULES = ["MpirProofs.Props.C04", "MpirProofs.Props.C04_tmp"]
+GEN = [gen_tmpskel.gen_tmpskel]
+THEOREMS = ["Mpir.Life.inv_init", "Mpir.Life.inv_step", "Mpir.Life.inv_run", "Mpir.Life.no_breach", "Mpir.Life.clearAll_empties_ledger", "Mpir.Life.realloc2_value", "Mpir.Life.set_value", "Mpir.TmpSkel.tmp_balanced"]
+TRUSTED = ["tools/gen_tmpskel.py: clang-14 AST of every function using TMP_DECL with the TMP_* macros re-pointed at marker calls; control-flow skeleton construction (if/loops/switch/goto/return/noreturn calls)",
+           "run-time monitors on the C side: recording allocator (exact old size on realloc/free, red zones, leak ledger), well-formedness check of every pool object after every call, ASan+UBSan build",
            "life-cycle/ledger model lean/Mpir/Model/Life.lean mirrors mpz/init.c, init2.c, realloc.c, realloc2.c, set.c, clear.c (tied by correspondence on value and _mp_alloc)"]
 ASSUMPTIONS = ["memory safety of code below the object abstraction is bounded sanitizer exploration over generated histories, not proof",
                "mpz_random*, mpn_random*, mpf_random2, mpz_array_init are excluded as the property says"]
